@@ -29,22 +29,46 @@ def unique_builder(F, adt, variant, exclude=r"^<writer::|^writer::|^tracing::"):
     return bs[0][0], [(s, st) for _, s, st in bs]
 
 
+def lift_role(F, b):
+    """A role is a routine (for the runner: the coroutine of an `async fn`).  When the anchoring construct sits in a
+    closure or in a private synchronous helper with a single caller (`stats.into_event()`), the role is the routine
+    that closure / helper belongs to."""
+    for _ in range(5):
+        if b.is_coroutine:
+            return b
+        if b.kind not in ("Fn", "AssocFn"):
+            pb = F.parent_body(b)
+            if pb is None:
+                return b
+            b = pb
+            continue
+        if b.vis == "Public" or any(c.is_coroutine for c in F.children.get(b.key, [])):
+            return b
+        callers = {}
+        for site in F.callers_of(b):
+            callers[site.body.key] = site.body
+        if len(callers) != 1:
+            return b
+        b = next(iter(callers.values()))
+    return b
+
+
 def execute(F):
     """EXECUTE := the unique (coroutine) body that constructs `Cucumber::Started`."""
     b, sites = unique_builder(F, "event::Cucumber", "Started")
-    return b
+    return lift_role(F, b)
 
 
 def run_scenario(F):
     """RUN_SCENARIO := the unique body that constructs `Scenario::Started`."""
     b, sites = unique_builder(F, "event::Scenario", "Started")
-    return b
+    return lift_role(F, b)
 
 
 def insert_features(F):
     """INGEST := the unique body that constructs `Cucumber::ParsingFinished`."""
     b, sites = unique_builder(F, "event::Cucumber", "ParsingFinished")
-    return b
+    return lift_role(F, b)
 
 
 def callee_body_of_unique_call(F, body, regex):
